@@ -182,6 +182,18 @@ def check_seed(scr, sch, lines, acc, mid, tier):
             elif i <= k and l <= j and (i, j) != (k, l):  # b nested in a
                 for pls in pair_places:
                     run_case([(i, j, None), (k, l, 0)], pls, base, "pair-nested")
+    # an outer fragment (in another directory) that itself includes two fragments one after the other:
+    # the second inner include must still resolve against the OUTER fragment, not against whatever was
+    # parsed last
+    shapes = [("sub", "same", "same"), ("parent", "sub", "same"), ("sub", "sub", "parent")]
+    if tier != "quick":
+        shapes += [("same", "sub", "sub"), ("parent", "parent", "same"), ("sub", "parent", "sub")]
+    for (i, j) in bal:
+        inner = [(k, l) for (k, l) in bal if i <= k and l <= j and (k, l) != (i, j)]
+        for (k, l), (m, n) in itertools.combinations(inner, 2):
+            if l <= m:
+                for pls in shapes:
+                    run_case([(i, j, None), (k, l, 0), (m, n, 0)], pls, base, "outer-with-two-inner")
     if tier != "quick" and len(lines) <= 6:
         for a, b, c in itertools.permutations(range(len(bal)), 3):
             (i, j), (k, l), (m, n) = bal[a], bal[b], bal[c]
